@@ -1,8 +1,37 @@
 """C09 - output stream well-formed; cell content cannot inject control bytes."""
 from checks import screenfam
+from lib import vlib
 
 
 def run(ctx):
-    screenfam.run_screen(ctx, "C09", mix="draw", per_term=(3, 40))
+    q = ctx.tier == "quick"
+    s, r = screenfam.run_screen(ctx, "C09", mix="draw", per_term=(3, 40))
+    # code-point sweep: every selected code point as primary content (SetContent: even columns and the last
+    # column; Fill) must leave a well-formed stream and - for the forbidden classes - a blank on the display
+    swept, events = 0, 0
+    for charset, terms in [("UTF-8", "xterm-256color,vt100,linux" if not q else "xterm-256color,vt100"),
+                           ("ISO8859-1", "xterm-256color"), ("KOI8-R", "vt100")]:
+        tf = ctx.work + "/sweep_%s.ndjson" % charset
+        s2, _ = ctx.run_vh(["screen", "--sweep", "quick" if q else "full", "--charset", charset, "--terms", terms,
+                            "--seed", ctx.seed, "--out", tf], timeout=3400)
+        r2 = ctx.validate_parallel("TScreenTrace", tf, parts=16, expect_events=s2.get("events"), timeout=3400)
+        mine = [d for d in r2["devs"] if d["tag"].startswith("C09.") or d["tag"] == "C01.cell"]
+        for d in mine:
+            d["charset"] = charset
+            if d["tag"] == "C01.cell":
+                d["tag"] = "C09.not_blank_or_wrong_glyph"
+        ctx.add_violations(mine, tf)
+        swept += s2["ops"]
+        events += r2["lines"]
+    ctx.cov["code_point_cells_swept"] = swept
+    ctx.cov["events_validated"] += events
+    ctx.cov["exhaustive"] = not q
+    ctx.assumptions += ["rune classes come from Go's unicode tables and x/text/width; code points on which they give no clear "
+                        "width (East-Asian-ambiguous counted narrow; unassigned, private use, spacing marks, emoji outside "
+                        "Wide skipped) are not swept as printable content"]
     ctx.finish("exploration",
-               rule="the C01 histories; every written block is lexed by Term.tla's ECMA-48 lexer")
+               rule="the C01 histories; plus the code-point sweep: all forbidden code points (C0, DEL, C1, Cf, Zl/Zp, Mn/Me, "
+                    "surrogates, negative and > 0x10FFFF; a 1/7 sample above U+3000 in the quick tier) through SetContent "
+                    "(incl. the last column) and Fill, and every 257th (quick) / every (thorough) other code point with an "
+                    "agreed width through SetContent, under UTF-8 and two 8-bit locales; every written block is lexed by "
+                    "Term.tla and the display compared")
